@@ -559,8 +559,12 @@ impl<B: Backend> Compiler<B, CompilerReady> {
                 })
             }
             OutputMode::Stdout => {
-                std::io::stdout()
+                // (flushed here: what stays in the buffer of `Stdout` is written when the
+                // process ends, and a failure at that point is reported to nobody)
+                let mut stdout = std::io::stdout().lock();
+                stdout
                     .write_all(generated.as_bytes())
+                    .and_then(|_| stdout.flush())
                     .map_err(|err| {
                         GeneratorError::new(
                             None,
